@@ -625,7 +625,10 @@ def suite_inverse(g, n, big=False):
         nn = edim(g, big)
         if op == 'inv_m4ri':
             A = g.mat(nn, nn, g.invertible_rows(nn))
-            g.add(op, '%s %s %d' % (dst(g, nn, nn), A, rng.randint(0, 10)), n=nn)
+            # "for every table parameter": the whole int range a caller may pass (0 = automatic; the code book ends at
+            # __M4RI_MAXKAY = 16; larger and negative values are legal arguments of mzd_inv_m4ri, which ignores k)
+            kk = rng.choice([rng.randint(0, 10), rng.randint(11, 16), rng.choice([17, 32, 64, 65, 1000, -1])])
+            g.add(op, '%s %s %d' % (dst(g, nn, nn), A, kk), n=nn)
         elif op == 'invert_naive':
             A = g.mat(nn, nn, g.invertible_rows(nn))
             I = g.mat(nn, nn, [(1 << i) for i in range(nn)])
